@@ -36,6 +36,17 @@ CLAIMED.update({
    note="trace parsing and instruction counts as numbers not decided; three zero-work defects found by R20.3 were repaired by a fix: commit"),
 })
 
+CLAIMED.update({
+ "C09": dict(
+   text="Structural clauses of work-group dispatch on all paths: the three placement algorithms checked as siblings of one interface (valid location only after a successful reservation on the named CU for the reserved work-group; counter and slot updated on the success path; FreeResources/HasNext shapes), SEND-DISCIPLINE and PAIR on the map request, completion accounting per ID with the message consumed, launch response only under kernelCompleted() whose three conjuncts are verified, idle-dispatcher selection in the CP, reserve/commit/clear/free symmetry of CUResourceImpl (mask sets, status constants, slot counts, offset granularities, unit counts). Non-overlap of masks for every demand sequence is value level and not decided.",
+   ref="4/C09", technique="SIBLINGS over implementations of one interface, SSA path analysis (SEND-DISCIPLINE, must-pass), dominance cuts with phi-fact pruning (GUARD), value provenance, constant tables",
+   note="resourceMask internals, gridbuilder and the CU-side completion (C14) not covered here"),
+ "C11": dict(
+   text="Structural clauses of host-device copies: the range-overlap predicate decided on all 75 weak orderings of its arguments (order-domain abstract interpretation of its comparison skeleton), completion only on an empty outstanding list / finished request collection, six splitting loops (chunk = min(remaining, address-dependent unit remainder), one step for all cursors, slice and size = chunk), piece addressing via the page found for the address, SEND-DISCIPLINE of DMA/CP/driver send stages, clone FIELDS, flush-before-copy ordering and CP gates. Byte equality for all offsets/lengths is not decided.",
+   ref="4/C11", technique="order-domain abstract interpretation (ORDER-DOMAIN), SSA loop-shape analysis of splitting loops, SSA path analysis (SEND-DISCIPLINE, must-pass), dominance cuts (GUARD), value provenance (FIELDS)",
+   note="arithmetic over runtime values, zero-length copies and cache flush effectiveness not decided; 3 unchecked Sends of the CP middleware recorded as known findings; memRangeOverlap containment defect repaired by a fix: commit"),
+})
+
 PENDING = {}
 
 NOT_APPLICABLE = {
